@@ -23,7 +23,7 @@ PID, OTHER = "pid:under/test", "pid:other"
 
 
 def examples(tier):
-    return 2400 if tier == "quick" else 40000
+    return 2400 if tier == "quick" else 150000
 
 
 @st.composite
